@@ -21,7 +21,7 @@ ASSUMPTIONS = ['one-element fields are infinite constants only in products (DESI
 PLAN = {'quick': {'gen': 8}, 'thorough': {'gen': 16, 'tests': 1, 'docs': 1}}
 REQUIRED_BUCKETS = ['empty-field', 'insert:constant', 'merge:constants', 'mul:array*array', 'mul:array*scalar', 'mul:scalar*scalar', 'mul:disjoint',
                     'insert:inside', 'insert:clipped', 'insert:outside', 'insert:intensity',
-                    'reduce:n>=3', 'boundary:negative-only', 'extent:queries']
+                    'reduce:n>=3', 'boundary:negative-only', 'extent:queries', 'constant:length-1-vector']
 REQUIRED_ANCHORS = ['probe:Field.__mul__', 'probe:insert', 'probe:_merge', 'probe:reduce', 'probe:boundary',
                     'anchor:array_extent', 'anchor:intersection_slices']
 REQUIRED_ORACLES = ['mul=canvas', 'insert=canvas', 'merge=canvas', 'reduce=canvas', 'boundary=bbox',
@@ -322,6 +322,33 @@ def workload(ctx, lentil):
     def roff(scale=R):
         return [int(rng.integers(-scale, scale + 1)), int(rng.integers(-scale, scale + 1))]
 
+    # ---- a constant held in a length-1 vector ([0.0], np.array([2.0]) - what np.atleast_1d, a one-entry table or a list literal
+    # hand over) is the constant it holds: through Field products, insert, and the planes built from such attributes -------------
+    for i in range(max(6, n // 30)):
+        c_ = complex(rng.normal(), rng.normal()) if i % 2 else float(rng.normal()) + 2.0
+        sa = _rshape(rng, 1)
+        A_ = Field(_rdata(rng, sa), offset=roff(6))
+        ctx.case({'length-1-vector-constant': i, 'shape': list(sa)}, ['constant:length-1-vector'])
+        try:
+            with probe.quiet():
+                ref_p = Field(np.array(c_)) * A_
+                ref_i = F.insert(Field(np.array(c_)), np.zeros((5, 7), complex))
+            for form, k_ in (('ndarray(1,)', Field(np.array([c_]))), ('list', Field([c_]))):
+                with probe.quiet():
+                    got_p = k_ * A_ if i % 4 < 2 else A_ * k_
+                    got_i = F.insert(k_, np.zeros((5, 7), complex))
+                ok = (np.shape(got_p.data) == np.shape(ref_p.data) and tuple(int(x) for x in got_p.offset) == tuple(int(x) for x in ref_p.offset)
+                      and np.allclose(got_p.data, ref_p.data, rtol=1e-14, atol=0) and np.array_equal(got_i, ref_i))   # (a*b vs b*a: an ulp)
+                ctx.check(ok, 'mul=canvas', 'mul|length-1-vector-constant',
+                          'a constant held in a length-1 vector is not treated as the (infinite) constant it holds',
+                          {'form': form, 'got': list(np.shape(got_p.data)), 'want': list(np.shape(ref_p.data))})
+            if i % 3 == 0:
+                w1 = lentil.Wavefront(6e-7) * lentil.Plane(opd=[0.0]) * lentil.Pupil(amplitude=[1.0], pixelscale=1e-3, focal_length=2.0)
+                ctx.check(len(w1.data) == 1 and np.ndim(w1.data[0].data) == 0 and abs(complex(w1.data[0].data) - 1) < 1e-15, 'mul=canvas',
+                          'mul|length-1-vector-constant|plane', 'planes whose attributes are length-1 vectors do not pass the plane wave unchanged',
+                          {'fields': [list(np.shape(f.data)) for f in w1.data]})
+        except Exception as e:
+            ctx.check(False, 'mul=canvas', f'mul|length-1-vector-constant|raises={type(e).__name__}', str(e), {'shape': list(sa)})
     # ---- products ---------------------------------------------------------
     for i in range(n):
         kind = rng.integers(0, 10)
